@@ -874,6 +874,10 @@ func (vc *VC) recordCall(key string, args []SV, st *State) {
 		if !ok {
 			continue
 		}
+		if vc.lastShape == nil {
+			vc.lastShape = map[string]SV{}
+		}
+		vc.lastShape[fmt.Sprintf("%s.%d", key, i)] = a // shape (sorts, element type) of the argument, for callees outside the repository
 		sorts := svSorts(a)
 		for j, l := range ls {
 			vc.set(st, fmt.Sprintf("G|lastcall.%s.%d.%d", key, i, j), sorts[j], l)
@@ -898,6 +902,17 @@ func (e *Env) lastCall(n ECall) SV {
 	}
 	idx, err := strconv.Atoi(n.Args[1].(EInt).V)
 	fn := vc.eng.Funcs[ks.V]
+	if err == nil && fn == nil {
+		// a dependency function (extern contract): the argument has the shape recorded at its most recent call in this function
+		if shape, ok := vc.lastShape[fmt.Sprintf("%s.%d", ks.V, idx)]; ok {
+			sorts := svSorts(shape)
+			ls := make([]string, len(sorts))
+			for j, s := range sorts {
+				ls[j] = vc.get(e.st, fmt.Sprintf("G|lastcall.%s.%d.%d", ks.V, idx, j), s)
+			}
+			return rebuildLike(shape, ls)
+		}
+	}
 	if err != nil || fn == nil || idx >= len(fn.Params) {
 		e.fail("lastcall: unknown function or parameter index")
 	}
